@@ -80,6 +80,10 @@ def wrapper_arguments(mod, sigs, spec):
     return w, req, opt, val, [n for n in names if n not in req and n not in opt]
 
 
+def name_of(spec):
+    return spec["fn"][2:] if spec["fn"].startswith("v_") else spec["fn"]
+
+
 def main():
     cfg = json.loads(sys.argv[1])
     mode, seed, rounds = cfg["mode"], cfg["seed"], cfg["rounds"]
@@ -188,6 +192,48 @@ def main():
                                 txt = fh.read()
                             out["violations"].append(dict(key="pending", what="f2py wrapper " + desc, report=txt[:6000],
                                                           replay=dict(replay, threads=nt)))
+                        # output delivery: the same call with ONE output / in-out array given the way callers may hold it
+                        # (a column of a wider table, numpy's default integer width).  The wrapper may refuse it; if it
+                        # accepts, the caller's own array must hold what the ordinary call produced - a wrapper that
+                        # fills a temporary copy and drops it leaves the promised output undefined.  One thread only
+                        # (multi-thread float reductions differ from run to run).
+                        if nt == 1 and os.path.getsize(logpat) == after if os.path.exists(logpat) else nt == 1:
+                            for nm, a in val.items():
+                                if not (isinstance(a, kspecs.Buf) and a.role in ("out", "inout") and a.arr.size >= 2
+                                        and nm in conv and isinstance(conv[nm], np.ndarray)):
+                                    continue
+                                kinds = ["strided"]
+                                if a.arr.dtype == np.int32:
+                                    kinds.append("int64")
+                                for kind in kinds:
+                                    conv2 = {}
+                                    for nm2, a2 in val.items():
+                                        if isinstance(a2, kspecs.Buf):
+                                            conv2[nm2] = a2.arr.copy()
+                                        elif isinstance(a2, tuple):
+                                            conv2[nm2] = float(a2[1])
+                                        else:
+                                            conv2[nm2] = int(a2)
+                                    if kind == "int64":
+                                        var = a.arr.astype(np.int64)
+                                    else:
+                                        wide = np.zeros(a.arr.shape + (2,), a.arr.dtype)
+                                        wide[..., 0] = a.arr
+                                        var = wide[..., 0]
+                                    conv2[nm] = var
+                                    try:
+                                        w(*[conv2[n] for n in req], **{n: conv2[n] for n in opt})
+                                    except Exception:
+                                        count("f2py_output_variants_refused")
+                                        continue
+                                    count("f2py_output_variants_accepted")
+                                    same = np.array_equal(np.asarray(var).astype(a.arr.dtype), conv[nm], equal_nan=(a.arr.dtype.kind == "f"))
+                                    if not same:
+                                        out["violations"].append(dict(
+                                            key="f2py:output-not-delivered:%s:%s" % (name_of(spec), nm),
+                                            what="wrapper accepted a %s array for the %s argument %s of %s but the caller's array "
+                                                 "does not hold the result of the call" % (kind, a.role, nm, name_of(spec)),
+                                            replay=dict(replay, threads=nt, variant=kind, argument=nm)))
                         conv = None
                         for p in blocks:
                             libc.free(p)
